@@ -43,6 +43,77 @@ def norm(s):
     return re.sub(r"\s+", "", s)
 
 
+MEM_FUNCS = ["popstate", "delim_error", "write_codepoint", "escapeh", "escapeu", "escape1", "stringend", "stringchar", "tokenchar",
+             "comment", "close_tuple", "close_array", "close_struct", "close_table", "longstring", "atsign", "root",
+             "janet_parser_consume", "janet_parser_eof", "janet_parser_flush", "janet_parser_error", "janet_parser_produce",
+             "janet_parser_produce_wrapped"]
+
+P = r"(?:p|parser)"
+MEM_PATTERNS = [
+    # calls of stack primitives and of functions that use them
+    (r"\bpush_buf\s*\(", "push_buf"), (r"\bpush_arg\s*\(", "push_arg"), (r"\b_?pushstate\s*\(", "pushstate"),
+    (r"\bpopstate\s*\(", "popstate"), (r"\bstringend\s*\(", "stringend"), (r"\bwrite_codepoint\s*\(", "write_codepoint"),
+    (r"\bdelim_error\s*\(", "delim_error"), (r"\bclose_(tuple|array|struct|table)\s*\(", "close_\\1"),
+    (r"\bjanet_parser_(consume|eof|flush|error|produce_wrapped|produce|status)\s*\(", "\\1"),
+    # counts
+    (P + r"->states\s*\[\s*--\s*" + P + r"->statecount\s*\]", "states[--statecount]"),
+    (P + r"->args\s*\[\s*--\s*" + P + r"->argcount\s*\]", "args[--argcount]"),
+    (P + r"->statecount\s*--|--\s*" + P + r"->statecount", "statecount--"),
+    (P + r"->argcount\s*--|--\s*" + P + r"->argcount", "argcount--"),
+    (P + r"->argcount\s*-=\s*state->argn", "argcount-=argn"),
+    (P + r"->bufcount\s*=\s*0\b", "bufcount=0"), (P + r"->argcount\s*=\s*0\b", "argcount=0"), (P + r"->statecount\s*=\s*1\b", "statecount=1"),
+    (P + r"->(statecount|argcount|bufcount)\s*(?:[-+*/]?=(?!=)|\+\+)", "WRITE:\\1"),
+    (P + r"->(states|args|buf)\s*=(?!=)", "WRITE:\\1"),
+    # indexed reads / writes
+    (P + r"->buf\s*\[\s*0\s*\]", "buf[0]"), (P + r"->args\s*\[\s*0\s*\]", "args[0]"), (P + r"->states\s*\[\s*0\s*\]", "states[0]"),
+    (P + r"->args\s*\[\s*i\s*-\s*1\s*\]\s*=\s*" + P + r"->args\s*\[\s*i\s*\]", "args[i-1]=args[i]"),
+    (P + r"->args\s*\[\s*i\s*\+\s*1\s*\]", "args[i+1]"), (P + r"->args\s*\[\s*i\s*\]", "args[i]"),
+    (P + r"->states\s*\[\s*" + P + r"->statecount\s*-\s*1\s*\]", "states[statecount-1]"),
+    (P + r"->states\s*\+\s*" + P + r"->statecount\s*-\s*1\b", "states+statecount-1"),
+    (P + r"->states\s*\+\s*stack_index\b", "states+stack_index"),
+    (P + r"->(states|args)\s*\[", "INDEX:\\1"),
+]
+_MEM_RX = [(re.compile(rx), name) for rx, name in MEM_PATTERNS]
+
+
+def mem_ops(body, fn):
+    """The memory events of a function body in source order (first matching pattern at each position wins);
+    consecutive duplicates of pure reads are merged so that re-reading `p->buf[0]` in one expression is one event."""
+    out, i = [], 0
+    while i < len(body):
+        best = None
+        for rx, name in _MEM_RX:
+            m = rx.match(body, i)
+            if m:
+                best = (m, m.expand(name))
+                break
+        if best:
+            m, name = best
+            if name.startswith(("WRITE:", "INDEX:")):
+                raise ExtractError("%s: unrecognised access to a parser stack: %s" % (fn, norm(body[i:i + 60])))
+            if not (out and out[-1] == name and name in ("buf[0]", "args[0]", "states[0]", "args[i]", "args[i+1]")):
+                out.append(name)
+            i = m.end()
+        else:
+            i += 1
+    return out
+
+
+def all_functions(src):
+    """(name, body) of every function definition at file level."""
+    out = []
+    for m in re.finditer(r"^(?:static\s+)?[A-Za-z_][\w \t\*]*?\b(\w+)\s*\([^;{}]*\)\s*\{", src, re.M):
+        name = m.group(1)
+        if name in ("if", "while", "for", "switch"):
+            continue
+        j = m.end() - 1
+        try:
+            out.append((name, src[j:csrc.match_brace(src, j)]))
+        except ExtractError:
+            pass
+    return out
+
+
 def extract(tree):
     raw = csrc.read(tree, "src/core/parse.c")
     src = csrc.strip_comments(raw)
@@ -132,6 +203,17 @@ def extract(tree):
                    ("bufcap", "newcap")])
     if sorted((a, b.strip()) for a, b in capw) != want:
         raise ExtractError("capacity assignments changed: %r" % capw)
+    # ---- memory events of every function the physical machine (Parse/Phys.lean) mirrors, in source order
+    c["memOps"] = [(fn, mem_ops(csrc.func_body(src, fn), fn)) for fn in MEM_FUNCS]
+    # no function outside that list (and the ones pinned above / below: init, clone, cfun_parse_insert, parser_state_delimiters)
+    # touches a count, a block or calls a stack primitive
+    known = set(MEM_FUNCS) | {"janet_parser_init", "janet_parser_clone", "janet_parser_deinit", "pushstate"}
+    for fn, body in all_functions(src):
+        if fn in known or fn in ("cfun_parse_insert", "parser_state_delimiters", "parser_state_frames", "janet_wrap_parse_state", "parsermark"):
+            continue
+        ops = [o for o in mem_ops(body, fn) if o not in ("consume", "eof", "flush", "error", "produce", "produce_wrapped", "status")]
+        if ops:
+            raise ExtractError("%s touches the parser stacks (%s) but is not modelled" % (fn, ",".join(ops)))
     # ---- flags
     for name in ("PFLAG_CONTAINER", "PFLAG_BUFFER", "PFLAG_PARENS", "PFLAG_SQRBRACKETS", "PFLAG_CURLYBRACKETS", "PFLAG_STRING", "PFLAG_LONGSTRING",
                  "PFLAG_READERMAC", "PFLAG_ATSYM", "PFLAG_COMMENT", "PFLAG_TOKEN", "PFLAG_INSTRING", "PFLAG_END_CANDIDATE", "JANET_PARSER_DEAD",
@@ -371,5 +453,8 @@ def render(tree):
     L.append("/-- `DEF_PARSER_STACK`: `if (newcount > cap) newcap = stackGrowFactor * newcount`; string branch of `parser/insert`: `if (cap < newcount) newcap = insertGrowFactor * newcount` -/")
     L.append("abbrev stackGrowFactor : Nat := %d" % c["stackGrowFactor"])
     L.append("abbrev insertGrowFactor : Nat := %d" % c["insertGrowFactor"])
+    L.append("/-- memory events (stack primitive calls, count updates, indexed accesses) of every parse.c function that `Parse/Phys.lean` mirrors, in source order -/")
+    L.append("abbrev memOps : List (String × List String) := [\n  %s]" % ",\n  ".join(
+        '("%s", [%s])' % (fn, ", ".join('"%s"' % o for o in ops)) for fn, ops in c["memOps"]))
     L.append("\nend JanetModel.Gen.Parse")
     return "\n".join(L) + "\n"
